@@ -87,3 +87,8 @@ pub fn adapt_key_pred<P, V, F: FnMut(&P) -> bool>(f: F) -> (g: impl FnMut(&P, &V
 // vacuity probes (DESIGN 3.6): body of every probe function; returns an arbitrary value, no specification
 #[verifier::external_body]
 pub fn probe_any<T>() -> T { unimplemented!() }
+
+// rule R9: `<[T]>::reverse` (also reached from `Vec::reverse` through deref).  TRUSTED.  The code of /repo never reverses
+// a work list; the specification exists so that a change which does is decided instead of leaving the Verus subset.
+pub assume_specification<T>[ <[T]>::reverse ](s: &mut [T])
+    ensures final(s)@ == old(s)@.reverse();
